@@ -7,6 +7,7 @@ import (
 	"io"
 	"math"
 	"strings"
+	"sync"
 
 	"go.pennock.tech/tabular"
 	"go.pennock.tech/tabular/auto"
@@ -17,6 +18,7 @@ import (
 	"go.pennock.tech/tabular/properties"
 	"go.pennock.tech/tabular/properties/align"
 	"go.pennock.tech/tabular/texttable"
+	"go.pennock.tech/tabular/texttable/decoration"
 
 	"verif/harness/internal/ev"
 	"verif/harness/internal/gen"
@@ -32,14 +34,16 @@ var Targets = []string{"csv", "html", "json", "markdown", "ascii-simple", "none"
 var WrapKinds = []string{"csv", "html", "json", "markdown", "texttable", "texttable:ascii-simple", "texttable:none"}
 
 type Case struct {
-	Script gen.Script `json:"script"`          // Script.Creator is the creation path
-	Chain  []string   `json:"chain,omitempty"` // wrappers nested around the created table, innermost first
-	Late   bool       `json:"late,omitempty"`  // wrap after building (else build through the outermost wrapper)
-	Target string     `json:"target"`
-	Align  []int      `json:"align,omitempty"`
-	Skip   []int      `json:"skip,omitempty"` // skipable per column (0 unset, 1 true, 2 false)
-	Pre    int        `json:"pre,omitempty"`
-	Poison bool       `json:"poison,omitempty"` // first, a sibling table is rendered in the target format and fails part-way  // >0: a long-lived target wrapper is created and rendered after Pre-1 operations, and rendered again at the end
+	Script gen.Script   `json:"script"`          // Script.Creator is the creation path
+	Chain  []string     `json:"chain,omitempty"` // wrappers nested around the created table, innermost first
+	Late   bool         `json:"late,omitempty"`  // wrap after building (else build through the outermost wrapper)
+	Target string       `json:"target"`
+	Align  []int        `json:"align,omitempty"`
+	Skip   []int        `json:"skip,omitempty"` // skipable per column (0 unset, 1 true, 2 false)
+	Pre    int          `json:"pre,omitempty"`
+	Props  []gen.PropOp `json:"props,omitempty"`  // a property history on the columns, after Align and Skip
+	Shadow bool         `json:"shadow,omitempty"` // the application has registered decorations of its own under the names of the formats (process-wide)
+	Poison bool         `json:"poison,omitempty"` // first, a sibling table is rendered in the target format and fails part-way  // >0: a long-lived target wrapper is created and rendered after Pre-1 operations, and rendered again at the end
 }
 
 func wrapOne(t tabular.Table, kind string) tabular.Table {
@@ -99,6 +103,7 @@ func settings(t tabular.Table, c Case) {
 			t.Column(i).SetProperty(properties.Skipable, false)
 		}
 	}
+	gen.ApplyProps(t, c.Props, n, nil, nil)
 }
 
 type result struct {
@@ -202,7 +207,22 @@ func (f *failAfter) Write(p []byte) (int, error) {
 	return len(p), nil
 }
 
+var shadowOnce sync.Once
+
+// registerShadows: "csv", "json", ... are legal decoration names; the format names keep meaning the formats.
+func registerShadows() {
+	shadowOnce.Do(func() {
+		d := decoration.Named("utf8-double")
+		for _, name := range []string{"csv", "html", "json", "markdown", "texttable", "CSV", "Json"} {
+			decoration.RegisterDecorationName(name, d)
+		}
+	})
+}
+
 func CheckCase(c Case) *ev.Violation {
+	if c.Shadow {
+		registerShadows()
+	}
 	if c.Poison {
 		poison(c.Target)
 	}
@@ -288,6 +308,21 @@ func CheckCase(c Case) *ev.Violation {
 			return ev.V("%s differs from the same content built on a core table and rendered by X.Wrap(t).Render()\n--- got\n%s\n--- want\n%s", route, out, wantOut)
 		}
 		return nil
+	}
+	// first of all, before anybody else has wrapped the finished table: the creating wrapper's own Render, when it
+	// is of the target kind (whatever a later Wrap would set up must not be needed)
+	if r, ok := inner.(renderer); ok {
+		own := creatorKind(c.Script.Creator)
+		if x, isTT := inner.(*texttable.TextTable); isTT && isText(c.Target) {
+			own = c.Target
+			x.SetDecorationNamed(c.Target)
+		}
+		if own == c.Target {
+			o, e := r.Render()
+			if v := cmp(fmt.Sprintf("%T.Render() through the handle that created the table, before any other wrapper exists", inner), o, e); v != nil {
+				return v
+			}
+		}
 	}
 	if long != nil {
 		o, e := long.Render()
@@ -399,6 +434,9 @@ func Classify(c Case) (bool, interface{}, []string) {
 	}
 	if c.Late {
 		cl = append(cl, "wrapped-after-build")
+	}
+	if c.Shadow {
+		cl = append(cl, "decorations-registered-under-format-names")
 	}
 	if c.Poison {
 		cl = append(cl, "failed-render-of-another-table-first")
